@@ -234,3 +234,6 @@ UNITS.append(Unit("C14", "jsonargparse._signatures:group_instantiate_class", gic
 
 from contracts.import_paths import import_object_unit  # noqa: E402
 UNITS.append(import_object_unit("C14"))
+
+from contracts.check_type import typehint_call_unit  # noqa: E402
+UNITS.append(typehint_call_unit("C14"))
